@@ -94,6 +94,24 @@ def r91(ctx, api, wr):
         not _late_effects(cfg, cfg.node_of(w[0]), api)
     tests = [norm(e.test) for e, fld in cfg.enclosing_tests(w[0]) if isinstance(e, ast.If) and fld == 'body'] if w else []
     ctx.ob('R9.1', 'api._sort_part_names:summary-after-all-renames-under-write_fmd', ok and 'write_fmd' in tests, str(tests), api.loc(g))
+    # whether the summary is rewritten depends on the caller's flag and on the dataset having numbered parts at all -
+    # not on whether this call found something to rename (callers delegate their summary write to this function)
+    if w:
+        from ..cfg import ReachingDefs
+        rd = ReachingDefs(cfg)
+        bad = []
+        for e, fld in cfg.enclosing_tests(w[0]):
+            if not (isinstance(e, ast.If) and fld == 'body') or norm(e.test) == 'write_fmd':
+                continue
+            for x in ast.walk(e.test):
+                if isinstance(x, ast.Name):
+                    for d in rd.defs_reaching(cfg.node_of(e), x.id):
+                        st_ = cfg.nodes[d].stmt if d != cfg.entry else None
+                        if st_ is not None and not (isinstance(st_, ast.Assign) and isinstance(st_.value, ast.Call) and callee(st_.value) == 'part_ids'):
+                            bad.append('%s <- %s' % (x.id, norm(st_)[:60]))
+        ctx.ob('R9.1', 'api._sort_part_names:summary-write-not-conditional-on-there-being-something-to-rename', not bad,
+               'the guard of the summary write reads %s: with names already aligned the summary of a removal / addition made '
+               'with write_fmd=False is never written' % bad, api.loc(w[0]))
     # merge
     mg = wr.func('merge')
     body = [norm(s) for s in mg.body if not (isinstance(s, ast.Expr) and isinstance(s.value, ast.Constant))
@@ -105,6 +123,17 @@ def r91(ctx, api, wr):
     ctx.ob('R9.1', 'api._write_common_metadata:refuses-single-file-datasets',
            any(isinstance(s, ast.If) and norm(s.test) == "self.file_scheme == 'simple'" and isinstance(s.body[0], ast.Raise)
                for s in wcm.body), '', api.loc(wcm))
+
+
+def _removal_list_ok(e):
+    """one path per file of the removed row groups: a comprehension over `rgs_to_remove` whose element joins the dataset
+    directory and the file (join_path(basepath, file) or the f-string form), unfiltered"""
+    if not (isinstance(e, ast.ListComp) and len(e.generators) == 1 and not e.generators[0].ifs
+            and norm(e.generators[0].iter) == 'rgs_to_remove' and isinstance(e.generators[0].target, ast.Name)):
+        return False
+    v = e.generators[0].target.id
+    t = norm(e.elt)
+    return t in ('join_path(basepath, %s)' % v, "f'{basepath}/{%s}'" % v)
 
 
 def r92(ctx, api):
@@ -119,7 +148,14 @@ def r92(ctx, api):
     if ok:
         arg = norm(rm[0].args[0])
         ctx.ob('R9.2', 'api.remove_row_groups:files-removed-are-the-files-of-the-removed-row-groups',
-               arg == "[f'{basepath}/{file}' for file in rgs_to_remove]", arg, api.loc(rm[0]))
+               _removal_list_ok(rm[0].args[0]), arg, api.loc(rm[0]))
+        # the dataset directory may be the empty string (a handle opened on the bare name `_metadata`): a path glued together
+        # as f'{basepath}/...' then starts at the file-system root, and the file of the removed row group stays where it is
+        for q_ in ('ParquetFile.remove_row_groups', 'ParquetFile._sort_part_names'):
+            g_ = api.func(q_)
+            glued = [norm(x)[:50] for x in walk_no_nested(g_) if isinstance(x, ast.JoinedStr) and norm(x).startswith("f'{basepath}/")]
+            ctx.ob('R9.2', 'api.%s:paths-under-the-dataset-directory-are-joined-not-glued' % q_.split('.')[-1], not glued,
+                   '%s: with an empty base path this names /<file>' % glued, api.loc(g_))
         # rgs not rebound between the map and the loop
         from ..cfg import ReachingDefs
         rd = ReachingDefs(cfg)
@@ -245,6 +281,26 @@ def r97(ctx, wr):
     ctx.ob('R9.7', 'writer.overwrite:new-partition-keys-spelled-like-the-directory-names', 'path_string' in chain,
            'directory names come from path_string (ISO format for timestamps); keys rendered any other way (astype(str)) '
            'never match a datetime partition: %s' % chain[:160], wr.loc(d[0]) if d else wr.loc(f))
+    # ... and the other side of that agreement: the hive directory text of a value is path_string(value) where the
+    # directories are made
+    pc = wr.func('partition_on_columns')
+    hive = [x for x in ast.walk(pc) if isinstance(x, ast.BinOp) and isinstance(x.op, ast.Mod) and isinstance(x.left, ast.Constant)
+            and isinstance(x.left.value, str) and '=' in x.left.value]
+    defs_pc = {}
+    for a_ in ast.walk(pc):
+        if isinstance(a_, ast.Assign) and len(a_.targets) == 1 and isinstance(a_.targets[0], ast.Name):
+            defs_pc.setdefault(a_.targets[0].id, []).append(a_.value)
+    def _spelled(e, depth=0):
+        if any(isinstance(c, ast.Call) and callee(c) == 'path_string' for c in ast.walk(e)):
+            return True
+        if depth < 3:
+            for x in ast.walk(e):
+                if isinstance(x, ast.Name) and x.id in defs_pc and any(_spelled(v, depth + 1) for v in defs_pc[x.id]):
+                    return True
+        return False
+    made = [x for x in hive if any(isinstance(c, ast.Call) and callee(c) in ('join_path', 'mkdirs') for c in ast.walk(pc))]
+    ctx.ob('R9.7', 'writer.partition_on_columns:hive-directory-text-is-path_string-of-the-value', bool(made) and all(_spelled(x.right) for x in made),
+           'name=value segments: %s' % [norm(x)[:60] for x in made], wr.loc(pc))
     ctx.ob('R9.7', 'writer.overwrite:new-partition-keys-built-in-partition-column-order', ok,
            'the key of the new data must list the values in the order of the dataset\'s partition columns (the order of the '
            'directory levels it is compared with): %s' % t[:120], wr.loc(d[0]) if d else wr.loc(f))
